@@ -9,7 +9,7 @@ def rdInts (j : Json) : Array Int := (rdA j).map fun x => x.getInt?.toOption.get
 def opWhiten (j : Json) : Json :=
   let N := rdN (getJ j "N"); let D := rdN (getJ j "D")
   let X : Fin N → Fin D → Float := f2 (rd2 (getJ j "x"))
-  let p0 := whitenFit cholLower X
+  let p0 := (whitenFitV cholLower X).toProj
   let p : Proj D Float := { weights := f2 (Array.ofFn fun a : Fin D => Array.ofFn fun b : Fin D => p0.weights a b),
                             subtract := f1 (Array.ofFn fun a : Fin D => p0.subtract a) }
   obj [("weights", o2 p.weights), ("subtract", o1 p.subtract), ("y", o2 (fun n : Fin N => project p (X n)))]
@@ -20,7 +20,7 @@ def opWccn (j : Json) : Json :=
   let ya := rdInts (getJ j "labels")
   let y : Fin N → Int := fun n => ya[n.val]!
   let classes := (rdInts (getJ j "classes")).toList
-  let p0 := wccnFit cholLower X y classes
+  let p0 := (wccnFitV cholLower X y classes).toProj
   let p : Proj D Float := { weights := f2 (Array.ofFn fun a : Fin D => Array.ofFn fun b : Fin D => p0.weights a b),
                             subtract := fun _ => 0 }
   obj [("weights", o2 p.weights), ("y", o2 (fun n : Fin N => project p (X n)))]
